@@ -25,6 +25,7 @@
 import contextlib, glob, hashlib, io, json, os, re, shutil, subprocess, sys, warnings
 from concurrent.futures import ThreadPoolExecutor
 from harness import core, tlaval, gen_cdef, gen_names
+from harness.gen_tlc import light, tlc_light
 
 LEVEL = "model_checking"
 
@@ -316,7 +317,7 @@ def validate_traces(ctx, traces, metas, report=True):
     bad = []
     for lo in range(0, len(traces), 1500):
         chunk = traces[lo:lo + 1500]
-        verd = core.tlc_verdicts(ctx, "Trace_AtomicWrite", chunk)
+        verd = core.tlc_verdicts(ctx, "Trace_AtomicWrite", chunk, extra_env=light())
         if len(verd) != len(chunk):
             raise core.MachineryError("Trace_AtomicWrite: %d verdicts for %d traces" % (len(verd), len(chunk)))
         for k, v, pos, cls in verd:
@@ -349,7 +350,7 @@ def model_paths(ctx):
     """all behaviours (k steps then Crash, or a complete run) of the model with one write chunk, grouped by the
     situation (old, stale): {(old, stale): [(steps before the crash, projected state at the end)]}"""
     dump = os.path.join(ctx.tmp, "aw_graph")
-    r = core.tlc("AtomicWrite", cfg_text=aw_cfg(chunks=1, live=False), dump=dump, workers=1)
+    r = tlc_light("AtomicWrite", cfg_text=aw_cfg(chunks=1, live=False), dump=dump)
     ctx.add_tlc("dump(AtomicWrite,1 chunk)", r, count_states=False)
     g = tlaval.load_dot(dump + ".dot")
     out = {}
@@ -397,21 +398,20 @@ def run(ctx):
     quick = ctx.quick
     pool = ThreadPoolExecutor(8)
     # ---------------------------------------------------------------- design level (background)
-    futs = [("MC_AtomicWrite(1 proc,chunks<=3)", "mc", pool.submit(core.tlc, "AtomicWrite", cfg_text=aw_cfg(), workers=2,
-                                                                    coverage=True)),
+    futs = [("MC_AtomicWrite(1 proc,chunks<=3)", "mc", pool.submit(tlc_light, "AtomicWrite", cfg_text=aw_cfg(), coverage=True)),
             ("MC_AtomicWrite(2 procs,chunks<=%d)" % (2 if quick else 3), "mc",
-             pool.submit(core.tlc, "AtomicWrite", cfg_text=aw_cfg(procs=(1, 2), chunks=2 if quick else 3), workers=4))]
+             pool.submit(tlc_light, "AtomicWrite", cfg_text=aw_cfg(procs=(1, 2), chunks=2 if quick else 3), workers=2))]
     if not quick:
         futs.append(("MC_AtomicWrite(3 procs,chunks<=2)", "mc",
                      pool.submit(core.tlc, "AtomicWrite", cfg_text=aw_cfg(procs=(1, 2, 3), chunks=2, live=False),
                                  workers=8, timeout=3000)))
     for v in ("inplace", "unlinkfirst", "nocompare", "renameearly"):
-        futs.append(("sanity:" + v, "sanity", pool.submit(core.tlc, "AtomicWrite", cfg_text=aw_cfg(variant=v), workers=1)))
-    futs.append(("fault:rename-fails", "fault", pool.submit(core.tlc, "AtomicWrite", cfg_text=aw_cfg(rf=True), workers=1)))
+        futs.append(("sanity:" + v, "sanity", pool.submit(tlc_light, "AtomicWrite", cfg_text=aw_cfg(variant=v))))
+    futs.append(("fault:rename-fails", "fault", pool.submit(tlc_light, "AtomicWrite", cfg_text=aw_cfg(rf=True))))
     seeds = ["0", "1", "2", "random", "inproc"] if quick else ["0", "1", "2", "3", "random", "inproc"]
     gd_out = os.path.join(ctx.tmp, "gendet.json")
     futs.append(("GenDet(configs)", "mc", pool.submit(core.tlc, "GenDet", cfg_text=GD_CFG % (
-        ", ".join('"%s"' % s for s in seeds), 2), workers=1, env={"GENDET_OUT": gd_out})))
+        ", ".join('"%s"' % s for s in seeds), 2), workers=1, env=light({"GENDET_OUT": gd_out}))))
 
     # ---------------------------------------------------------------- (a) determinism
     rng = ctx.rng
@@ -627,7 +627,7 @@ def run(ctx):
         recs.append({"id": inp["id"], "obs": obs[inp["id"]]})
         ctx.case(("det", inp["id"]), n=len(obs[inp["id"]]))
     tp = core.write_json(os.path.join(ctx.tmp, "gendet_trace.json"), recs)
-    r = core.tlc("Trace_GenDet", workers=1, env={"TRACE_FILE": tp})
+    r = core.tlc("Trace_GenDet", workers=1, env=light({"TRACE_FILE": tp}))
     ctx.add_tlc("Trace_GenDet", r, count_states=False)
     chk = core.tla_tuples(r.out, "CHECKED")
     nobs = sum(len(x["obs"]) for x in recs)
